@@ -2501,6 +2501,10 @@ class _ORMSelectCompileState(_ORMCompileState, SelectState):
                 kwargs.get("offset_clause") is not None
                 and self.multi_row_eager_loaders
             )
+            or (
+                kwargs.get("fetch_clause") is not None
+                and self.multi_row_eager_loaders
+            )
             or kwargs.get("distinct", False)
             or kwargs.get("distinct_on", ())
             or kwargs.get("group_by", False)
